@@ -528,7 +528,17 @@ var countVariants = []struct {
 // argSets argument draws per endpoint and tape; a cell uses one of them, chosen by its coordinates.
 const argSets = 4
 
-const customAPIBase = "https://api.sim.test:8443/osm/api/0.6"
+// customAPIBases are the configured base URLs of the "custom" half of the table; which one a cell uses is
+// a function of its coordinates, so every call sees all of them across its statuses, shapes and limiter modes.
+// Two of them carry percent escapes in the path (a space; an escaped slash that must stay escaped): the
+// request must keep the escaped form, which the server compares (URL.EscapedPath on both sides).
+var customAPIBases = []string{
+	"https://api.sim.test:8443/osm/api/0.6",
+	"http://osm.sim.test/my%20mirror/api/0.6",
+	"http://gateway.sim.test/fetch/api.openstreetmap.org%2Fapi/0.6",
+}
+
+func customBaseOf(c c20cell) string { return customAPIBases[(c.st+c.cv+c.lim)%len(customAPIBases)] }
 
 type c20cell struct {
 	ep, form, st, cv, lim, base int
@@ -686,7 +696,7 @@ func execCell(root context.Context, idx int, args [][]*apiArgs) *cellRun {
 	cr.srv = &apiServer{status: st, body: body, clock: clock}
 	client := &http.Client{Transport: cr.srv}
 	if c.base == 1 {
-		cr.base = customAPIBase
+		cr.base = customBaseOf(c)
 	}
 	if c.lim != limNone {
 		cr.d = time.Duration(1+kit.Mix(a.salt+uint64(idx))%5000) * time.Millisecond
@@ -863,6 +873,10 @@ func judgeCell(o *kit.Outcome, cr *cellRun) (violated bool) {
 	}
 
 	// exactly one GET
+	if len(reqs) == 0 {
+		viol("C20/no-request-issued/"+ep.name, "no request reached the server (err=%v)", res.err)
+		return
+	}
 	if len(reqs) != 1 {
 		u := ""
 		for _, r := range reqs {
@@ -877,6 +891,9 @@ func judgeCell(o *kit.Outcome, cr *cellRun) (violated bool) {
 	}
 	if rq.ctxOK {
 		o.Probe("request-carried-the-callers-context")
+	}
+	if strings.Contains(cr.base, "%") {
+		o.Probe("base-url-with-percent-escapes")
 	}
 	if c.form == formNilClient {
 		o.Probe("request-through-inherited-default-client")
